@@ -32,7 +32,7 @@
     Main results: glue_find_lower, glue_find_higher, glue_find_closest, glue_scan_defaults. *)
 From Coq Require Import Lia Bool.
 From TW Require Import Model.GlueWhile Gen.ScanGlue.
-From TW Require Import Proofs.GlueProcessProofs.
+From TW Require Import Proofs.GlueFunLemmas.
 Open Scope Qc_scope.
 Open Scope string_scope.
 Open Scope list_scope.
